@@ -35,14 +35,19 @@ func isStdoutEvent(ev Event) bool {
 
 func runC15(c *Ctx, tier string) {
 	r := NewReport("C15", "other", tier, c)
-	r.Explanation = "Control-flow shape of the command-line tool, decided from decision tables with logrus.Fatal*/os.Exit modelled as process exit: (1) doLint over read error × format ∈ {pem, der, base64, other} × PEM block ∈ {none, CERTIFICATE, X509 CRL, other type} × base64 error × parse error × JSON error × the three output flags: every failing case ends in a Fatal call with no write to standard output before it; every succeeding case parses exactly the decoded bytes of the chosen format (PEM block bytes / file bytes / base64-decoded bytes), lints with LintCertificateEx — or LintRevocationListEx iff the PEM type is X509 CRL — using the registry it was given, marshals that result's Results and writes it (or the indented form, or the summary tables of the same result set) followed by a newline; (2) setLints over all 64 combinations of the six selection flags and the error cases: the configuration file is loaded and set on the global registry first; without selectors the global registry is returned; otherwise each flag reaches exactly its own FilterOptions field (-nameFilter→NameFilter via regexp.Compile, -includeNames/-excludeNames→IncludeNames/ExcludeNames via trimmedList, -includeSources/-excludeSources→IncludeSources/ExcludeSources via SourceList.FromString, -profile→AddProfile(GetProfile)) and the result of GlobalRegistry().Filter is returned; configuration, pattern, source-list and profile errors end in an error return or Fatal; anyFilters is given all six selectors; (3) main passes setLints' registry to every doLint call and dies on its error before any output; (4) summary counts: newRT allocates fresh count maps per call and, per element of Results, increments resultCount[status] exactly when status > threshold; OutputSummary uses threshold Pass and a new table per call and prints resultCount per level. Does not decide process exit codes, table rendering or byte equality of output across encodings."
-	r.Rule("dolint-table; setlints-table; main-wiring; summary-counts")
+	r.Explanation = "Control-flow shape of the command-line tool, decided from decision tables with logrus.Fatal*/os.Exit modelled as process exit: (1) doLint over read error × format ∈ {pem, der, base64, other} × PEM block ∈ {none, CERTIFICATE, X509 CRL, other type} × base64 error × parse error × JSON error × the three output flags: every failing case ends in a Fatal call with no write to standard output before it; every succeeding case parses exactly the decoded bytes of the chosen format (PEM block bytes / file bytes / base64-decoded bytes), lints with LintCertificateEx — or LintRevocationListEx iff the PEM type is X509 CRL — using the registry it was given, marshals that result's Results and writes it (or the indented form, or the summary tables of the same result set) followed by a newline; (2) setLints over all 64 combinations of the six selection flags and the error cases: the configuration file is loaded and set on the global registry first; without selectors the global registry is returned; otherwise each flag reaches exactly its own FilterOptions field (-nameFilter→NameFilter via regexp.Compile, -includeNames/-excludeNames→IncludeNames/ExcludeNames via trimmedList, -includeSources/-excludeSources→IncludeSources/ExcludeSources via SourceList.FromString, -profile→AddProfile(GetProfile)) and the result of GlobalRegistry().Filter is returned; configuration, pattern, source-list and profile errors end in an error return or Fatal; anyFilters is given all six selectors; (3) main passes setLints' registry to every doLint call and dies on its error before any output; (4) summary counts: newRT allocates fresh count maps per call and, per element of Results, increments resultCount[status] exactly when status > threshold; OutputSummary uses threshold Pass and a new table per call and prints resultCount per level. (5) unknown selectors: what the CLI hands to the library is rejected there — SourceList.FromString returns an error for every entry that is not a declared source (decision table over all declared constants and undeclared strings), lintNamesToMap returns an error for a name none of the three lookups knows, and Filter returns these errors (the rules of C13, evaluated here as well). Does not decide process exit codes, table rendering or byte equality of output across encodings."
+	r.Rule("dolint-table; setlints-table; main-wiring; summary-counts; source-exhaustive; source-list; names-validated; filter-errors")
 	r.Trusted = []string{"go/ssa", "logrus.Fatal* and os.Exit do not return", "encoding/pem, encoding/base64, encoding/json, zcrypto parsers"}
 
 	c15DoLint(c, r)
 	c15SetLints(c, r)
 	c15Main(c, r)
 	c15Summary(c, r)
+	// (5) unknown selectors: the CLI relies on the library to reject them
+	sourceSwitches(c, r, "source-exhaustive", false)
+	c13SourceList(c, r)
+	namesToMap(c, r, "names-validated")
+	c13FilterUses(c, r)
 	r.Finish()
 }
 
